@@ -117,6 +117,9 @@ def named(draw):
         pre = f"{draw(st.sampled_from(['In re', 'Ex parte']))} {draw(_name)}"
     else:
         pre = draw(_name)
+    if draw(st.integers(0, 14)) == 0:
+        # an excerpt cut inside a caption: the stop word is the first word, no plaintiff precedes it
+        pre = f"{draw(st.sampled_from(['v.', 'v. ', 'v']))} {draw(_name)}".replace("  ", " ")
     if draw(st.integers(0, 6)) == 0:
         pre += f" ({draw(_year)})"
     sep = draw(st.sampled_from([", ", " ", ", ", ",  "]))
@@ -264,6 +267,13 @@ def document(draw, hostile=True, multibyte=False, max_frags=8, mutate=True):
     """A citation-dense document. hostile: splice hostile fragments and character-level mutations."""
     n = draw(st.integers(1, max_frags))
     out = []
+    if draw(st.integers(0, 7)) == 0:
+        # documents do not always begin with a word
+        out.append(draw(st.sampled_from([" ", "\n", "\t", "  ", "\n\n", "(", ""])))
+        if draw(st.booleans()):
+            # ... and an excerpt may start in the middle of a caption
+            out.append(f"{draw(st.sampled_from(['v.', 'v']))} {draw(_name)}, {draw(full())}")
+            out.append(draw(st.sampled_from(SEPARATORS)))
     for _ in range(n):
         out.append(draw(fragment(hostile=hostile, multibyte=multibyte)))
         out.append(draw(st.sampled_from(SEPARATORS)))
